@@ -6,6 +6,7 @@ import (
 	"fmt"
 	"math/big"
 	"reflect"
+	"strings"
 	"testing"
 
 	"github.com/icon-project/goloop/module"
@@ -533,7 +534,101 @@ func TestC12(t *testing.T) {
 	defer rec.Flush(t)
 	rec.Assume("id reference written from the ICON v3 serialization description; JSON numbers/booleans and member names with special characters are outside the decided domain")
 	t.Run("knownfinding", func(t *testing.T) { c12KnownFinding(t, rec) })
+	t.Run("numbers", func(t *testing.T) {
+		ev.Check(t, 300, 6000, func(rt *rapid.T) { c12Numbers(rt, rec) })
+	})
 	t.Run("roundtrip", func(t *testing.T) {
 		ev.Check(t, 1500, 30000, func(rt *rapid.T) { c12Case(rt, rec) })
 	})
+}
+
+// c12Numbers: goloop also accepts bare JSON number literals inside "data" (clients send them; the ICON format
+// only defines strings, so there is no reference id for such a transaction). What the statement still demands is
+// identity across representations, decided against goloop itself: the id the JSON form has is the id after every
+// conversion to the stored form and back, the signature made over that id verifies in every form, and the basic
+// fields are unchanged. Integer literals only, biased to the edges of what float64 and int64 hold exactly.
+func c12Numbers(rt *rapid.T, rec *ev.Rec) {
+	tx := hsGenTx(rt, hsTxOpt{variants: false, maxDepth: 1})
+	dt := "call"
+	tx.dataType = &dt
+	tx.set("dataType", hsS(dt))
+	marks := []string{"@@N0@@", "@@N1@@", "@@N2@@"}
+	data := hsVal{k: hsDict, keys: []string{"method", "params"}, vals: []hsVal{hsS("m"), {k: hsDict,
+		keys: []string{"a", "b", "c"},
+		vals: []hsVal{hsS(marks[0]), {k: hsList, l: []hsVal{hsS(marks[1]), hsS("0x1")}}, {k: hsDict, keys: []string{"d"}, vals: []hsVal{hsS(marks[2])}}}}}}
+	tx.data = &data
+	tx.set("data", data)
+	lits := make([]string, len(marks))
+	for i := range lits {
+		var v *big.Int
+		switch rapid.IntRange(0, 7).Draw(rt, "numClass") {
+		case 0:
+			v = big.NewInt(int64(rapid.IntRange(-300, 300).Draw(rt, "small")))
+		case 1:
+			v = new(big.Int).Add(new(big.Int).Lsh(big.NewInt(1), 53), big.NewInt(int64(rapid.IntRange(-3, 3).Draw(rt, "d53"))))
+		case 2:
+			v = new(big.Int).Sub(new(big.Int).Lsh(big.NewInt(1), 63), big.NewInt(int64(rapid.IntRange(1, 2000).Draw(rt, "below63"))))
+		case 3:
+			v = new(big.Int).Neg(new(big.Int).Sub(new(big.Int).Lsh(big.NewInt(1), 63), big.NewInt(int64(rapid.IntRange(0, 2000).Draw(rt, "aboveMin")))))
+		default:
+			v = new(big.Int).SetUint64(rapid.Uint64Range(1<<53, 1<<63-1).Draw(rt, "large"))
+			if rapid.Bool().Draw(rt, "neg") {
+				v.Neg(v)
+			}
+		}
+		lits[i] = v.String()
+	}
+	inject := func(js string) string {
+		for i, m := range marks {
+			js = strings.Replace(js, "\""+m+"\"", lits[i], 1)
+		}
+		return js
+	}
+	desc := fmt.Sprintf("numbers %v in data of %s", lits, tx.desc())
+	exact := true
+	for _, l := range lits {
+		v, _ := new(big.Int).SetString(l, 10)
+		if f, _ := new(big.Float).SetInt(v).Float64(); new(big.Float).SetFloat64(f).Cmp(new(big.Float).SetInt(v)) != 0 {
+			exact = false
+		}
+	}
+	labels := []string{"numbers"}
+	if !exact {
+		labels = append(labels, "numbers-not-exact-in-float64")
+	}
+	rec.Case(desc, !exact, labels...)
+	unsigned := inject(tx.obj.JSON(nil))
+	t0, err := transaction.NewTransactionFromJSON([]byte(unsigned))
+	if err != nil {
+		rec.Label("numbers-unsigned-form-rejected")
+		return
+	}
+	id0 := append([]byte{}, t0.ID()...)
+	if len(id0) != 32 {
+		rec.Label("numbers-no-id")
+		return
+	}
+	sig := hsSignRSV(tx.key, id0)
+	js := inject(tx.json(sig))
+	cur, err := transaction.NewTransactionFromJSON([]byte(js))
+	if err != nil {
+		rt.Fatalf("C12 violated: the unsigned JSON form is accepted, the same transaction with a signature member is not: %v\njson=%s", err, js)
+	}
+	for round := 0; round <= 3; round++ {
+		if !bytes.Equal(cur.ID(), id0) {
+			rt.Fatalf("C12 violated: id %x as JSON, %x after %d conversion(s) to the stored form and back\njson=%s\nstored form=%s", id0, cur.ID(), round, js, c12Stored(cur.Bytes()))
+		}
+		if err := cur.Verify(); err != nil {
+			rt.Fatalf("C12 violated: the sender's signature over the id verifies in no form after %d conversion(s) (%v)\njson=%s\nstored form=%s", round, err, js, c12Stored(cur.Bytes()))
+		}
+		if cur.From().String() != tx.from || cur.To().String() != tx.to || cur.Timestamp() != tx.timestamp {
+			rt.Fatalf("C12 violated: from/to/timestamp %s/%s/%d after %d conversion(s), submitted %s/%s/%d\njson=%s", cur.From(), cur.To(), cur.Timestamp(), round, tx.from, tx.to, tx.timestamp, js)
+		}
+		bs := cur.Bytes()
+		next, err := transaction.NewTransaction(append([]byte{}, bs...))
+		if err != nil {
+			rt.Fatalf("C12 violated: round %d: stored form is not parsed back: %v\njson=%s\nstored form=%s", round, err, js, c12Stored(bs))
+		}
+		cur = next
+	}
 }
